@@ -135,8 +135,18 @@ def _x2v(ctx):
     return r
 
 
+def _skipped(ctx, rule, what):
+    from .core import RuleResult
+    r = RuleResult(rule, '%s skipped: its interval end points and float-to-integer conversions are modelled in IEEE double, '
+                         'which is only faithful for GEOGRAPHICLIB_PRECISION=2' % what)
+    r.ob(True, {'skipped': True})
+    return r
+
+
 def _x11(ctx):
     from .rules import bounds
+    if ctx.prog.raw.get('precision', 2) != 2:
+        return _skipped(ctx, 'X11', 'writer/reader field agreement')
     r, nfield = bounds.rule_X11(ctx, [(NSP + 'GARS::Forward', NSP + 'GARS::Reverse'),
                                       (NSP + 'Georef::Forward', NSP + 'Georef::Reverse')])
     r.floor('paired fields', nfield, 2)
@@ -205,9 +215,12 @@ def _c10(ctx):
 
 def _c18(ctx):
     from .rules import relidx
-    x7r, nsite, nproved = relidx.rule_X7r(ctx, ('src/GARS.cpp', 'src/Georef.cpp', 'src/OSGB.cpp', 'src/Geohash.cpp'))
-    x7r.floor('subscript sites', nsite, 20)
-    x7r.floor('sites proved on every path', nproved, 18)
+    if ctx.prog.raw.get('precision', 2) != 2:
+        x7r = _skipped(ctx, 'X7r', 'relational index proof')
+    else:
+        x7r, nsite, nproved = relidx.rule_X7r(ctx, ('src/GARS.cpp', 'src/Georef.cpp', 'src/OSGB.cpp', 'src/Geohash.cpp'))
+        x7r.floor('subscript sites', nsite, 20)
+        x7r.floor('sites proved on every path', nproved, 18)
     return _exc_rules(ctx, 'C18') + [x7r, _w1(ctx, 'C18', 7), _x10(ctx), _x11(ctx), _x9(ctx, ('src/Geohash.cpp', 'src/GARS.cpp', 'src/Georef.cpp', 'src/OSGB.cpp'), 4, 80), _t3(ctx, {'Geohash', 'GARS', 'Georef', 'OSGB'}, 22),
                                       _x7(ctx, ('src/Geohash.cpp', 'src/GARS.cpp', 'src/Georef.cpp', 'src/OSGB.cpp'), 25, 20, 10)]
 
